@@ -95,65 +95,69 @@ example : ∃ s : Tree Nat Nat, Tree.Reach cfgU8 s ∧ s.size = 2 ∧ s.free = [
 /-! ### Tie through the translator
 
 `Stevia.Gen32.*` / `Stevia.Gen8.*` are regenerated from `avl_tree.rs` / `u8_avl_tree.rs` on every run
-(tools/rust2lean.py). The following theorems say that the *translated Rust functions*, run on the register layout
-of any reachable state, do what the functional model (and hence, by `refines_from`, the reference map) does. -/
+(tools/rust2lean.py). A translated function answers `none` where the Rust would panic or where one of its loops
+does not leave by its own condition within `records + 1` iterations. The following theorems say that the *translated
+Rust functions*, run on the register layout of any reachable state, answer `some …` — no panic, no endless loop — and
+do what the functional model (and hence, by `refines_from`, the reference map) does. -/
 
-/-- `avl_tree.rs`: `from_bytes_mut` followed by `insert` on the layout of a reachable state cannot fault, ends in the layout
-    of a reachable state, and state and returned slot are the model's. -/
+/-- `avl_tree.rs`: `from_bytes_mut` followed by `insert` on the layout of a reachable state returns normally, ends in the
+    layout of a reachable state, and state and returned slot are the model's. -/
 theorem translated_insert_u32 (kd : α) (vd : β) (s : Tree α β) (h : Tree.Reach cfgU32 s) (k : α) (v : β) :
     ∃ s' r, Tree.Reach cfgU32 s' ∧ (s.openMut cfgU32).insert cfgU32 k v = .ok (s', r) ∧
-      (Gen32.insert (Imp.dflt kd vd) (Gen32.from_bytes_mut (Imp.dflt kd vd) (s.image cfgU32 kd vd)) k v).getD
-          (Gen32.from_bytes_mut (Imp.dflt kd vd) (s.image cfgU32 kd vd), none) = (s'.image cfgU32 kd vd, r) :=
+      Gen32.insert (Imp.dflt kd vd) (Gen32.from_bytes_mut (Imp.dflt kd vd) (s.image cfgU32 kd vd)) k v
+        = some (s'.image cfgU32 kd vd, r) :=
   Gen32.transition_insert kd vd s h k v
 
 /-- `avl_tree.rs`: the same for `remove`. -/
 theorem translated_remove_u32 (kd : α) (vd : β) (s : Tree α β) (h : Tree.Reach cfgU32 s) (k : α) :
     ∃ s' r, Tree.Reach cfgU32 s' ∧ (s.openMut cfgU32).remove k = .ok (s', r) ∧
       Gen32.remove (Imp.dflt kd vd) (Gen32.from_bytes_mut (Imp.dflt kd vd) (s.image cfgU32 kd vd)) k
-        = (s'.image cfgU32 kd vd, r) :=
+        = some (s'.image cfgU32 kd vd, r) :=
   Gen32.transition_remove kd vd s h k
 
-/-- `avl_tree.rs`: the translated queries (`find`, `contains`, `lowest`, the sizes) and `get_mut` + write answer as the model. -/
+/-- `avl_tree.rs`: the translated queries (`find`, `contains`, `lowest`, the sizes) and `get_mut` + write return normally and
+    answer as the model. -/
 theorem translated_queries_u32 (kd : α) (vd : β) (s : Tree α β) (h : Tree.Reach cfgU32 s) (k : α) (v : β) :
-    Gen32.find (Imp.dflt kd vd) (s.image cfgU32 kd vd) k = (s.root.find k).map (·.1) ∧
-    Gen32.contains (Imp.dflt kd vd) (s.image cfgU32 kd vd) k = (s.root.find k).isSome ∧
-    Gen32.lowest (Imp.dflt kd vd) (s.image cfgU32 kd vd) = s.lowest ∧
+    Gen32.find (Imp.dflt kd vd) (s.image cfgU32 kd vd) k = some ((s.root.find k).map (·.1)) ∧
+    Gen32.contains (Imp.dflt kd vd) (s.image cfgU32 kd vd) k = some (s.root.find k).isSome ∧
+    Gen32.lowest (Imp.dflt kd vd) (s.image cfgU32 kd vd) = some s.lowest ∧
     Gen32.len (Imp.dflt kd vd) (s.image cfgU32 kd vd) = s.size ∧
     Gen32.is_full (Imp.dflt kd vd) (s.image cfgU32 kd vd) = s.isFull ∧
-    (match (Gen32.get_mut (Imp.dflt kd vd) (s.image cfgU32 kd vd) k).2 with
+    (Gen32.get_mut (Imp.dflt kd vd) (s.image cfgU32 kd vd) k).map (fun r => match r.2 with
       | none => (s.image cfgU32 kd vd, false)
       | some i => (Imp.wr (s.image cfgU32 kd vd) i fun r => { r with val := v }, true))
-      = (((s.update k v).1).image cfgU32 kd vd, (s.update k v).2) :=
+      = some (((s.update k v).1).image cfgU32 kd vd, (s.update k v).2) :=
   have hi := Tree.reach_inv h
   ⟨Gen32.find_refines kd vd s hi k, Gen32.contains_refines kd vd s hi k, Gen32.lowest_refines kd vd s hi,
    rfl, rfl, Gen32.get_mut_refines kd vd s hi k v⟩
 
-/-- `u8_avl_tree.rs`: `from_bytes_mut` followed by `insert` on the layout of a reachable state cannot fault, ends in the layout
-    of a reachable state, and state and returned slot are the model's. -/
+/-- `u8_avl_tree.rs`: `from_bytes_mut` followed by `insert` on the layout of a reachable state returns normally, ends in the
+    layout of a reachable state, and state and returned slot are the model's. -/
 theorem translated_insert_u8 (kd : α) (vd : β) (s : Tree α β) (h : Tree.Reach cfgU8 s) (k : α) (v : β) :
     ∃ s' r, Tree.Reach cfgU8 s' ∧ (s.openMut cfgU8).insert cfgU8 k v = .ok (s', r) ∧
-      (Gen8.insert (Imp.dflt kd vd) (Gen8.from_bytes_mut (Imp.dflt kd vd) (s.image cfgU8 kd vd)) k v).getD
-          (Gen8.from_bytes_mut (Imp.dflt kd vd) (s.image cfgU8 kd vd), none) = (s'.image cfgU8 kd vd, r) :=
+      Gen8.insert (Imp.dflt kd vd) (Gen8.from_bytes_mut (Imp.dflt kd vd) (s.image cfgU8 kd vd)) k v
+        = some (s'.image cfgU8 kd vd, r) :=
   Gen8.transition_insert kd vd s h k v
 
 /-- `u8_avl_tree.rs`: the same for `remove`. -/
 theorem translated_remove_u8 (kd : α) (vd : β) (s : Tree α β) (h : Tree.Reach cfgU8 s) (k : α) :
     ∃ s' r, Tree.Reach cfgU8 s' ∧ (s.openMut cfgU8).remove k = .ok (s', r) ∧
       Gen8.remove (Imp.dflt kd vd) (Gen8.from_bytes_mut (Imp.dflt kd vd) (s.image cfgU8 kd vd)) k
-        = (s'.image cfgU8 kd vd, r) :=
+        = some (s'.image cfgU8 kd vd, r) :=
   Gen8.transition_remove kd vd s h k
 
-/-- `u8_avl_tree.rs`: the translated queries (`find`, `contains`, `lowest`, the sizes) and `get_mut` + write answer as the model. -/
+/-- `u8_avl_tree.rs`: the translated queries (`find`, `contains`, `lowest`, the sizes) and `get_mut` + write return normally and
+    answer as the model. -/
 theorem translated_queries_u8 (kd : α) (vd : β) (s : Tree α β) (h : Tree.Reach cfgU8 s) (k : α) (v : β) :
-    Gen8.find (Imp.dflt kd vd) (s.image cfgU8 kd vd) k = (s.root.find k).map (·.1) ∧
-    Gen8.contains (Imp.dflt kd vd) (s.image cfgU8 kd vd) k = (s.root.find k).isSome ∧
-    Gen8.lowest (Imp.dflt kd vd) (s.image cfgU8 kd vd) = s.lowest ∧
+    Gen8.find (Imp.dflt kd vd) (s.image cfgU8 kd vd) k = some ((s.root.find k).map (·.1)) ∧
+    Gen8.contains (Imp.dflt kd vd) (s.image cfgU8 kd vd) k = some (s.root.find k).isSome ∧
+    Gen8.lowest (Imp.dflt kd vd) (s.image cfgU8 kd vd) = some s.lowest ∧
     Gen8.len (Imp.dflt kd vd) (s.image cfgU8 kd vd) = s.size ∧
     Gen8.is_full (Imp.dflt kd vd) (s.image cfgU8 kd vd) = s.isFull ∧
-    (match (Gen8.get_mut (Imp.dflt kd vd) (s.image cfgU8 kd vd) k).2 with
+    (Gen8.get_mut (Imp.dflt kd vd) (s.image cfgU8 kd vd) k).map (fun r => match r.2 with
       | none => (s.image cfgU8 kd vd, false)
       | some i => (Imp.wr (s.image cfgU8 kd vd) i fun r => { r with val := v }, true))
-      = (((s.update k v).1).image cfgU8 kd vd, (s.update k v).2) :=
+      = some (((s.update k v).1).image cfgU8 kd vd, (s.update k v).2) :=
   have hi := Tree.reach_inv h
   ⟨Gen8.find_refines kd vd s hi k, Gen8.contains_refines kd vd s hi k, Gen8.lowest_refines kd vd s hi,
    rfl, rfl, Gen8.get_mut_refines kd vd s hi k v⟩
